@@ -1,10 +1,12 @@
 """C08 - cutting the capture at any point only removes a suffix of the export.
 
+seg : C05's reassembly scenarios (cuts, duplicate / coalesced retransmission, reordering) with a solver-chosen cut: the records the
+      session delivers from packets[:j] must be a prefix, per direction, of those delivered from all packets.
 tls : C01 scenarios (one record per segment, and records cut into small segments) with a solver-chosen cut index j; the pipeline
       runs on packets[:j] and on all packets inside one path; per direction the first export must be a byte-prefix of the second."""
 
 VALIDATE = True
-SITES = ["no-exception", "client-prefix", "server-prefix"]
+SITES = ["no-exception", "client-prefix", "server-prefix", "records-prefix"]
 MODELS = ["as C01"]
 ASSUMPTIONS = ["as C01"]
 
@@ -30,6 +32,13 @@ def configs(tier, seed):
                 cc.update(harness="tls-cut", name="cut-%s%s-part%d" % (c["name"], "-seg%d" % seg if seg else "", sl), seg_size=seg, records=2,
                           max_len=1, cut_slice=[sl, slices])
                 out.append(cc)
+    from tlv.harness import c05
+    for c5 in c05.configs(tier, seed):
+        if c5["isn"] != "any" or c5["transform"] == "cuts":
+            continue
+        cc = dict(c5)
+        cc.update(harness="seg-cut", name="segcut-" + c5["name"])
+        out.append(cc)
     from tlv.harness import c02
     for c in c02.configs(tier, seed):
         if tier == "quick" and not (c["name"].endswith("cid8.4.8") or c["name"].endswith("cid8.0.8")):
@@ -45,7 +54,8 @@ def configs(tier, seed):
 
 def bounds(tier):
     return {"cut positions": "every j in 0..N (solver-chosen) for every scenario", "segmentation": "one record per segment, and every record cut into %d-byte segments" % (7 if tier == "thorough" else 16),
-            "scenarios": "C01 pipeline scenarios, one suite per (version, handshake shape) in quick", "N": "<= ~60 packets"}
+            "scenarios": "C01 pipeline scenarios, one suite per (version, handshake shape) in quick", "N": "<= ~60 packets",
+            "seg": "C05's record streams with one duplicate, one coalesced retransmission or one displaced segment, every cut position"}
 
 
 def _run_quic(cfg):
@@ -82,9 +92,87 @@ def _run_quic(cfg):
     return explore_cfg(scenario, cfg, timeout_ms=60000, sample_paths=1, max_paths=100000)
 
 
+def _run_segcut(cfg):
+    from tlv.sx import shims
+    from tlv.sx.core import ctx, sym_int, sym_choice, sym_and
+    from tlv.sx.symbytes import mixed_bytes, as_symbytes
+    from tlv.harness import c05
+    from tlv.harness.common import explore_cfg
+    import tlexport.session as ts
+    import tlexport.tlsrecord as tr
+    shims.install(ts)
+    shims.install(tr)
+
+    def scenario():
+        c = ctx()
+        plan = c05._plan(cfg, sym_choice)
+        nrec, lens, total, segs, order, other_pos = plan
+        recs = [mixed_bytes("rec%d" % i, [3, (lens[i]).to_bytes(2, "big"), lens[i]]) for i in range(nrec)]
+        other = mixed_bytes("other", [3, b"\x00\x01", 1])
+        isn = sym_int("isn", 0, (1 << 32) - 1)
+        isn_o = sym_int("isn_other", 0, (1 << 32) - 1)
+        pkts = c05._build(cfg, plan, recs, other, isn, isn_o)
+        j = sym_choice("cut", list(range(1, len(pkts) + 1)))
+        main_server = cfg["main"] == "server"
+        res = []
+        try:
+            for part in (pkts[:j], pkts):
+                s, got = c05._run_session(part)
+                if c05._ooo_event(s, got, plan, main_server):
+                    return {"outcome": "known C05 finding", "validate": False}
+                res.append(got)
+        except Exception as e:
+            c.fail("no-exception", "%s: %s" % (type(e).__name__, e))
+            return {"outcome": "exception"}
+        c.check(True, "no-exception")
+        conds = []
+        for d in (False, True):
+            a = [r for r, f in res[0] if f == d]
+            b = [r for r, f in res[1] if f == d]
+            if len(a) > len(b):
+                c.fail("records-prefix", "cut after %d of %d packets delivers %d records, the full capture %d" % (j, len(pkts), len(a), len(b)))
+                return {"outcome": "more records from less input"}
+            conds += [as_symbytes(x.raw) == as_symbytes(y.raw) for x, y in zip(a, b)]
+        c.check(sym_and(*conds) if conds else True, "records-prefix")
+        return {"outcome": "cut %d/%d" % (j, len(pkts))}
+    return explore_cfg(scenario, cfg, timeout_ms=60000, max_paths=300000, sample_paths=1)
+
+
+def _concrete_segcut(cfg, inp):
+    from tlv.harness import c05
+
+    def choose(name, options):
+        return options[inp[name]] if len(options) > 1 else options[0]
+    plan = c05._plan(cfg, choose)
+    nrec, lens, total, segs, order, other_pos = plan
+    recs = [bytes.fromhex(inp["rec%d" % i]) for i in range(nrec)]
+    pkts = c05._build(cfg, plan, recs, bytes.fromhex(inp["other"]), inp["isn"], inp["isn_other"])
+    opts = list(range(1, len(pkts) + 1))
+    j = opts[inp["cut"]] if len(opts) > 1 else opts[0]
+    main_server = cfg["main"] == "server"
+    res = []
+    for part in (pkts[:j], pkts):
+        try:
+            s, got = c05._run_session(part)
+        except Exception as e:
+            return {"ok": False, "problems": ["exception %s: %s" % (type(e).__name__, e)]}
+        if c05._ooo_event(s, got, plan, main_server):
+            return {"ok": True, "ooo_event": True}
+        res.append(got)
+    problems = []
+    for d in (False, True):
+        a = [bytes(r.raw) for r, f in res[0] if f == d]
+        b = [bytes(r.raw) for r, f in res[1] if f == d]
+        if a != b[:len(a)]:
+            problems.append("%s: cut at %d delivers %s, the full capture %s" % ("server" if d else "client", j, [x.hex() for x in a], [x.hex() for x in b]))
+    return {"ok": not problems, "problems": problems, "segments": [(p.tag, p.seq, bytes(p.tls_data).hex()) for p in pkts]}
+
+
 def run_config(cfg):
     if cfg["harness"] == "quic-cut":
         return _run_quic(cfg)
+    if cfg["harness"] == "seg-cut":
+        return _run_segcut(cfg)
     from tlv.sx.core import ctx, sym_choice
     from tlv.harness import pipeline as P
     from tlv.harness.common import explore_cfg
@@ -147,6 +235,8 @@ def _concrete_quic(cfg, inp):
 def _concrete(cfg, inp):
     if cfg["harness"] == "quic-cut":
         return _concrete_quic(cfg, inp)
+    if cfg["harness"] == "seg-cut":
+        return _concrete_segcut(cfg, inp)
     from tlv import e2e
     from tlv.harness import pipeline as P
     from tlv.oracle import scenario as SC
